@@ -140,7 +140,9 @@ theorem clientRun_read_more {t : Sys} {sk sk' : List Item} {c : Option Nat}
 
 theorem clientRun_read_hit {t : Sys} {sk sk' rest : List Item} {x : Item} {c : Option Nat}
     (ht : t.client = .reading sk c) (hs : scan (dataMatches cfg) sk t.queue = .hit x rest sk') :
-    clientRun cfg t = { t with queue := rest ++ sk' }.finish (.data x.payload) := by
+    clientRun cfg t =
+      { t with queue := if t.eof then rest else rest ++ sk',
+               behind := if t.eof then t.behind ++ sk' else t.behind }.finish (.data x.payload) := by
   unfold clientRun; rw [ht]; dsimp only; rw [hs]
 
 theorem clientRun_read_err {t : Sys} {sk sk' rest : List Item} {cw : Nat} {c : Option Nat}
@@ -269,6 +271,9 @@ theorem settle_out_prefix (s : Sys) : ∃ more, (settle cfg yields s).out = s.ou
   unfold wake Sys.finish; split
   · split <;> rfl
   · rfl
+
+@[simp] theorem wake_behind (s : Sys) (h : s.eof = false) : (wake s).behind = s.behind := by
+  unfold wake; simp [h]
 
 /-- while the stream is alive `wake` does nothing -/
 theorem wake_alive (s : Sys) (h : s.eof = false) : wake s = s := by
